@@ -25,7 +25,7 @@ RULE = ('every (key, group, chain id) of the universe is signed once; distinct =
 BOUND = {
     'quick': '2 keys per curve (tz1..tz4) x {10 non-consensus kinds + endorsement (3 levels) + endorsement_with_slot, 9 same-pass '
              'batches of 2}; chain id None or mainnet for non-consensus, {mainnet, 00000000} for consensus',
-    'thorough': '3 keys per curve (incl. order-1) x {2-12 variants of each of the 10 non-consensus kinds, 4 consensus contents, all 64 '
+    'thorough': '3 keys per curve (incl. order-1) x {4-8 variants of each of the 10 non-consensus kinds, 4 consensus contents, all 64 '
                 'ordered manager-kind pairs + activate_account pair} x chain ids {None/mainnet, 00000000, ffffffff}',
 }
 ASSUMPTIONS = [
@@ -163,7 +163,7 @@ def groups(tier: str):
     out = []
     for kind in c06.KINDS:
         vs = c06.variants(kind, 'quick')
-        for c in (vs[2:3] or vs[:1]) if q else vs:
+        for c in (vs[2:3] or vs[:1]) if q else vs[:8]:
             out.append(([c], [None if len(out) % 2 else CHAIN_IDS[0]]))
     for c in consensus_contents():
         out.append(([c], CHAIN_IDS[:2] if q else CHAIN_IDS))
